@@ -10,6 +10,7 @@ export class RangeListManager {
   rawKeys!: string[]
   keyMap!: { [key: string]: number }
   sharedKeyMap!: { [key: string]: number[] } | undefined
+  sharedUniqueKeys!: { [key: string]: true } | undefined
   items!: DataValue[]
   indexes!: (string | number)[] | null
   ownerShadowRoot: ShadowRoot
@@ -97,6 +98,7 @@ export class RangeListManager {
     const rawKeys = new Array<string>(items.length)
     const keyMap = Object.create(null) as { [key: string]: number }
     let sharedKeyMap: { [key: string]: number[] } | undefined
+    let sharedUniqueKeys: { [key: string]: true } | undefined
     if (keyName !== null) {
       // firstly, find all unique keys and shared keys
       for (let i = 0; i < items.length; i += 1) {
@@ -134,6 +136,8 @@ export class RangeListManager {
             const k = `${key}--${inc}`
             keyMap[k] = index
             rawKeys[index] = k
+            if (!sharedUniqueKeys) sharedUniqueKeys = Object.create(null) as { [key: string]: true }
+            sharedUniqueKeys[k] = true
           }
         }
       }
@@ -141,6 +145,7 @@ export class RangeListManager {
     this.rawKeys = rawKeys
     this.keyMap = keyMap
     this.sharedKeyMap = sharedKeyMap
+    this.sharedUniqueKeys = sharedUniqueKeys
   }
 
   diff(
@@ -159,11 +164,11 @@ export class RangeListManager {
     // generate new list for comparison
     const oldRawKeys = this.rawKeys
     const oldKeyMap = this.keyMap
-    const oldSharedKeyMap = this.sharedKeyMap
+    const oldSharedUniqueKeys = this.sharedUniqueKeys
     const oldIndexes = this.indexes
     this.updateKeys(dataList)
     const newRawKeys = this.rawKeys
-    const newSharedKeyMap = this.sharedKeyMap
+    const newSharedUniqueKeys = this.sharedUniqueKeys
     const items = this.items
     const indexes = this.indexes
     const keyName = this.keyName
@@ -208,7 +213,8 @@ export class RangeListManager {
         updatePathTree = new Array(newRawKeys.length)
         for (let i = 0; i < newRawKeys.length; i += 1) {
           const k = newRawKeys[i]!
-          if (oldSharedKeyMap?.[k] !== undefined || newSharedKeyMap?.[k] !== undefined) {
+          // (`k` is the key made unique: the item that carried it in the old list may be another one)
+          if (oldSharedUniqueKeys?.[k] !== undefined || newSharedUniqueKeys?.[k] !== undefined) {
             updatePathTree[i] = true
           } else {
             // (the tree of an object list is keyed by field names, not by positions)
